@@ -16,7 +16,7 @@ RULE = (
     "dependent requests (exactly n flushes of 1 item). distinct = program hash; non-trivial = at least 2 tasks and 1 flush."
 )
 ASSUMPTIONS = ["the statement restricts itself to programs whose tasks interact only by yielding"]
-UNIT_TIMEOUT = {"quick": 240, "thorough": 2400}
+UNIT_TIMEOUT = {"quick": 150, "thorough": 2400}
 
 BASE = dict(
     p_shared=0.4,
